@@ -1,4 +1,6 @@
 """C15 - syntax highlighting only recolours foregrounds, by the file's language."""
+import os
+
 from .. import engine, gen, rows, runner, snippets, term
 from ..engine import held, inconclusive, violated, crash_outcome
 
@@ -170,8 +172,20 @@ def run_default_language(rng):
         return inconclusive('empty diff')
     o1 = dict(opts)
     o1['--default-language'] = ext
-    a = runner.run_delta(gen.to_args(o1), ('\n'.join(l1) + '\n').encode())
-    b = runner.run_delta(gen.to_args(opts), ('\n'.join(l2) + '\n').encode())
+    # the working directory holds a file of that very name whose first line announces another language: the name alone
+    # decides, the file may not be looked at
+    import tempfile
+    cwd = tempfile.mkdtemp(prefix='c15cwd', dir=os.path.join(runner.workdir(), 'tmp'))
+    other = rng.choice([l for l in ('py', 'sh', 'rb') if l != ext])
+    first = {'py': '#!/usr/bin/env python3', 'sh': '#!/bin/bash', 'rb': '#!/usr/bin/env ruby'}[other]
+    for rel in {unknown, os.path.basename(unknown)}:
+        os.makedirs(os.path.join(cwd, os.path.dirname(rel)), exist_ok=True)
+        with open(os.path.join(cwd, rel), 'w') as f:
+            f.write(first + '\nx = 1\n')
+    a = runner.run_delta(gen.to_args(o1), ('\n'.join(l1) + '\n').encode(), cwd=cwd)
+    b = runner.run_delta(gen.to_args(opts), ('\n'.join(l2) + '\n').encode(), cwd=cwd)
+    import shutil
+    shutil.rmtree(cwd, ignore_errors=True)
     for r in (a, b):
         c = crash_outcome(r, ID)
         if c is not None:
